@@ -232,8 +232,15 @@ func (w *world) valueExpr(r *hx.Rng, a *nx.Asm, d *[]string) {
 	}
 }
 
+func precompile(n byte) common.Address {
+	var a common.Address
+	a[len(a)-1] = n
+	return a
+}
+
 func (w *world) anyAddr(r *hx.Rng, self common.Address) common.Address {
-	cands := []common.Address{w.T[0], w.T[1], w.S[0], w.S[3], w.C[0], w.C[1], w.C[2], self, common.FeeAccount, nx.Addr(0x51)}
+	cands := []common.Address{w.T[0], w.T[1], w.S[0], w.S[3], w.C[0], w.C[1], w.C[2], self, common.FeeAccount, nx.Addr(0x51), w.KM,
+		precompile(4), precompile(2)} // identity, sha256
 	return cands[r.Intn(len(cands))]
 }
 
@@ -253,7 +260,43 @@ func (w *world) genProg(r *hx.Rng, self common.Address, depth int) prog {
 	var d []string
 	n := r.Intn(4)
 	for i := 0; i < n; i++ {
-		switch k := r.Intn(10); {
+		switch k := r.Intn(17); {
+		case k >= 10 && k < 12: // CREATE2 with value
+			names := []string{"stop", "suicide-self", "revert", "runtime-suicide-self"}
+			nm := names[r.Intn(len(names))]
+			ic := childInit[nm]
+			for off := 0; off < len(ic); off += 32 {
+				chunk := make([]byte, 32)
+				copy(chunk, ic[off:])
+				a.PushBytes(chunk).PushU(uint64(off)).Op(nx.MSTORE)
+			}
+			salt := uint64(r.Intn(3))
+			a.PushU(salt).PushU(uint64(len(ic))).PushU(0)
+			w.valueExpr(r, a, &d)
+			a.Op(nx.CREATE2, nx.POP)
+			d = append(d, fmt.Sprintf("create2:%s/salt%d", nm, salt))
+		case k == 12: // DELEGATECALL: the callee's code moves the CALLER's funds
+			to := w.C[1+r.Intn(2)]
+			a.PushU(0).PushU(0).PushU(0).PushU(0).PushAddr(to).PushU(0xffffff).Op(nx.DELEGATECALL, nx.POP)
+			d = append(d, "delegatecall:"+short(w, to))
+		case k == 13: // STATICCALL: value movements inside must fail
+			to := []common.Address{w.C[1], w.C[2], w.KM}[r.Intn(3)]
+			a.PushU(0).PushU(0).PushU(0).PushU(0).PushAddr(to).PushU(0xffffff).Op(nx.STATICCALL, nx.POP)
+			d = append(d, "staticcall:"+short(w, to))
+		case k == 14: // SSTORE set then clear: gas refund path
+			a.PushU(1).PushU(uint64(r.Intn(2))).Op(nx.SSTORE).PushU(0).PushU(uint64(r.Intn(2))).Op(nx.SSTORE)
+			d = append(d, "sstore-set-clear")
+		case k >= 15: // a stake opcode run by this contract itself (it controls no miner unless it is KM)
+			op := []byte{nx.STAKE, nx.UNSTAKE, nx.UNSTAKEALL}[r.Intn(3)]
+			if op == nx.UNSTAKEALL {
+				if r.Intn(3) > 0 {
+					continue // without a miner UNSTAKEALL aborts the frame: keep it rare
+				}
+				a.Op(nx.ADDRESS, op, nx.POP)
+			} else {
+				a.Op(nx.ADDRESS).Push(nx.Wei([]string{"1", "0.5", "400", "0"}[r.Intn(4)])).Op(op, nx.POP)
+			}
+			d = append(d, fmt.Sprintf("op%#x", op))
 		case k < 5: // CALL
 			to := w.anyAddr(r, self)
 			gas := uint64(0xffffffff)
@@ -346,13 +389,14 @@ func short(w *world, a common.Address) string {
 // committed state on which the preceding txs of the block were executed by the real loop), the recorded EVM
 // ledger trace of a contract tx, its receipt from the real run and the stale gasUsed left in the executor context.
 type mctx struct {
-	idx   func(common.Address) int
-	pre   *account.AccountDB
-	pre0  *account.AccountDB // the state at the start of the block
-	info  *nx.ContractInfo
-	rc    *types.Receipt
-	stale *uint64
-	h     uint64
+	idx     func(common.Address) int
+	pre     *account.AccountDB
+	pre0    *account.AccountDB // the state at the start of the block
+	info    *nx.ContractInfo
+	rc      *types.Receipt
+	stale   *uint64
+	h       uint64
+	results []string // values pushed by the stake opcodes of this tx, in order (observed)
 }
 
 type gen struct {
@@ -520,7 +564,7 @@ func (w *world) generate(r *hx.Rng, installed *bool) gen {
 		}
 		v, vok := parseAmt(val)
 		desc["src"], desc["to"], desc["gas"], desc["value"] = short(w, src), short(w, tgt), gas, val
-		return gen{kind: "call", tx: tx, negVal: vok && v.Sign() < 0, desc: desc, model: w.contractModel(src, nil, cp)}
+		return gen{kind: "call", tx: tx, negVal: vok && v.Sign() < 0, desc: desc, model: w.contractModel(src, cp)}
 	case k < 66: // contract creation
 		names := []string{"stop", "suicide-self", "revert", "invalid", "runtime-suicide-self"}
 		nm := names[r.Intn(len(names))]
@@ -532,7 +576,7 @@ func (w *world) generate(r *hx.Rng, installed *bool) gen {
 		tx := nx.NewTx(types.TransactionTypeContract, srcHex, "", contractData(gas, val, childInit[nm]), "")
 		v, vok := parseAmt(val)
 		return gen{kind: "create", tx: tx, negVal: vok && v.Sign() < 0,
-			desc: map[string]interface{}{"src": short(w, src), "init": nm, "gas": gas, "value": val}, model: w.contractModel(src, nil, cparams{true, gas, val, childInit[nm], true})}
+			desc: map[string]interface{}{"src": short(w, src), "init": nm, "gas": gas, "value": val}, model: w.contractModel(src, cparams{true, gas, val, childInit[nm], true})}
 	case k < 77: // miner apply / add
 		return w.genLock(r, src)
 	case k < 85: // miner refund
@@ -561,69 +605,39 @@ func (w *world) generate(r *hx.Rng, installed *bool) gen {
 	}
 }
 
-// customEvents: what STAKE / UNSTAKE / UNSTAKEALL executed by KM does to the ledger, from the registry as it is just
-// before the tx (m.pre), following opStake / opUnStake / opUnStakeAll + AddStake / GetRefundStake branch by branch.
-func (w *world) customEvents(c *customOp, origin common.Address, m *mctx) []string {
-	if c.op == 0 {
-		return nil
-	}
-	id := service.MinerManagerImpl.GetMinerIdByAccount(w.KM.Bytes(), m.pre)
-	if id == nil {
-		return nil
-	}
-	mi := service.MinerManagerImpl.GetMiner(id, m.pre)
-	if mi == nil {
-		return nil
-	}
-	whole, err := strconv.ParseUint(utility.BigIntToStrWithoutDot(c.amount), 10, 0)
-	switch c.op {
-	case nx.STAKE:
-		if err != nil || whole == 0 {
-			return nil
-		}
-		return []string{fmt.Sprintf("L %d%%N %s", m.idx(w.KM), zlit(utility.Float64ToBigInt(float64(whole))))}
-	case nx.UNSTAKE:
-		// the ParseUint error is ignored by opUnStake: a range error yields MaxUint64 = "the whole stake"
-		if whole == ^uint64(0) {
-			whole = mi.Stake
-		}
-		if mi.Stake < whole {
-			return nil
-		}
-		return []string{fmt.Sprintf("Un %d%%N %d%%N %s %s %d%%N", m.idx(origin), m.idx(w.KM), zlit(c.amount), zlit(nx.Tokens(whole)), m.h+refundIn)}
-	default: // UNSTAKEALL
-		return []string{fmt.Sprintf("Un %d%%N %d%%N 0 %s %d%%N", m.idx(origin), m.idx(w.KM), zlit(nx.Tokens(mi.Stake)), m.h+refundIn)}
-	}
-}
-
 // txArg: calldata word 0 of the tx (what KM's CALLDATALOAD(0) sees when the tx calls KM directly).
-func (w *world) contractModel(src common.Address, txArg *big.Int, cp cparams) func(m *mctx) (string, bool) {
+func (w *world) contractModel(src common.Address, cp cparams) func(m *mctx) (string, bool) {
 	return func(m *mctx) (string, bool) {
 		info := m.info
 		if info == nil || (info.Ran && !info.Parsed) {
 			return "", false
 		}
+		// the opcode-level event list as recorded while the real EVM ran this tx (nothing is predicted here)
 		var evs []string
 		for _, e := range info.Trace {
 			switch e.Kind {
 			case "V":
 				evs = append(evs, fmt.Sprintf("V %d%%N %d%%N %s", m.idx(e.A), m.idx(e.B), zlit(e.V)))
-				if e.B == w.KM { // KM starts running here; its custom opcode is the first thing it does
-					amt := txArg
-					if e.A == w.C[0] {
-						amt = w.c0Arg
-					}
-					if amt == nil {
-						amt = new(big.Int)
-					}
-					evs = append(evs, w.customEvents(&customOp{w.kmOp, amt}, src, m)...)
+			case "A":
+				if e.A != src {
+					return "", false // AUTHCALL's sponsor is the tx origin
 				}
+				evs = append(evs, fmt.Sprintf("A %d%%N %d%%N %s", m.idx(e.A), m.idx(e.B), zlit(e.V)))
 			case "K":
 				evs = append(evs, fmt.Sprintf("K %d%%N %d%%N", m.idx(e.A), m.idx(e.B)))
 			case "S":
 				evs = append(evs, fmt.Sprintf("S %d%%N", e.Id))
 			case "R":
 				evs = append(evs, fmt.Sprintf("R %d%%N", e.Id))
+			case "St":
+				evs = append(evs, fmt.Sprintf("St %d%%N %s %s", m.idx(e.A), zlit(e.V), hx.CoqBool(e.HasMiner)))
+				m.results = append(m.results, zlit(e.Res))
+			case "Us":
+				evs = append(evs, fmt.Sprintf("Us %d%%N %d%%N %s %d %s %d%%N", m.idx(src), m.idx(e.A), zlit(e.V), e.Stake, hx.CoqBool(e.HasMiner), m.h))
+				m.results = append(m.results, zlit(e.Res))
+			case "Ua":
+				evs = append(evs, fmt.Sprintf("Ua %d%%N %d%%N %d %s %d%%N", m.idx(src), m.idx(e.A), e.Stake, hx.CoqBool(e.HasMiner), m.h))
+				m.results = append(m.results, zlit(e.Res))
 			}
 		}
 		evmOK := m.rc != nil && m.rc.Status == 1
@@ -635,7 +649,7 @@ func (w *world) contractModel(src common.Address, txArg *big.Int, cp cparams) fu
 		if m.stale != nil {
 			stale = "(Some " + new(big.Int).Mul(new(big.Int).SetUint64(*m.stale), gwei).String() + ")"
 		}
-		return fmt.Sprintf("TC %d%%N %s [%s] %s %d %s", m.idx(src), cp.coq(), strings.Join(evs, "; "), hx.CoqBool(evmOK), gasUsed, stale), true
+		return fmt.Sprintf("HC %d%%N %s [%s] %s %d %s", m.idx(src), cp.coq(), strings.Join(evs, "; "), hx.CoqBool(evmOK), gasUsed, stale), true
 	}
 }
 
@@ -811,7 +825,11 @@ func (w *world) genCustom(r *hx.Rng, src common.Address) gen {
 	} else {
 		a.Op(nx.STOP)
 	}
-	w.ADB.SetCode(w.KM, a.B)
+	host := w.KM
+	if r.Intn(5) == 0 {
+		host = w.C[2] // controls no miner: STAKE / UNSTAKE push 0, UNSTAKEALL aborts the frame
+	}
+	w.ADB.SetCode(host, a.B)
 	w.kmOp = op
 	amts := []string{"0.5", "1", "100", "0.000000000000000001", "399.5", "1.5", "400", "401", "50", "2.25", "0", "115792089237316195423570985008687907853269984665640564039457", "20000000000"}
 	amt := nx.Wei(amts[r.Intn(len(amts))])
@@ -819,13 +837,13 @@ func (w *world) genCustom(r *hx.Rng, src common.Address) gen {
 	arg := utility.LeftPadBytes(amt.Bytes(), 32)
 	cust := &customOp{op, amt}
 	via := "direct"
-	tgt := w.KM
+	tgt := host
 	if r.Intn(3) == 0 { // through C0: MSTORE the amount, CALL KM with it, then move a little value and stop
 		via = "via-C0"
 		tgt = w.C[0]
 		c := &nx.Asm{}
 		c.PushBytes(arg).PushU(0).Op(nx.MSTORE)
-		c.PushU(0).PushU(0).PushU(32).PushU(0).PushU(0).PushAddr(w.KM).PushU(0xffffffff).Op(nx.CALL, nx.POP)
+		c.PushU(0).PushU(0).PushU(32).PushU(0).PushU(0).PushAddr(host).PushU(0xffffffff).Op(nx.CALL, nx.POP)
 		c.PushU(0).PushU(0).PushU(0).PushU(0).PushU(1).PushAddr(w.T[0]).PushU(0xffff).Op(nx.CALL, nx.POP, nx.STOP)
 		w.ADB.SetCode(w.C[0], c.B)
 		w.c0Arg = amt
@@ -837,8 +855,8 @@ func (w *world) genCustom(r *hx.Rng, src common.Address) gen {
 	}
 	tx := nx.NewTx(types.TransactionTypeContract, nx.AddrHex(src), nx.AddrHex(tgt), contractData("3000000", val, arg), "")
 	return gen{kind: "custom", tx: tx, custom: cust,
-		desc:  map[string]interface{}{"src": short(w, src), "op": name, "amount": amt.String(), "km": term, "via": via, "value": val},
-		model: w.contractModel(src, amt, cparams{true, "3000000", val, arg, false})}
+		desc:  map[string]interface{}{"src": short(w, src), "op": name, "amount": amt.String(), "km": term, "via": via, "value": val, "host": short(w, host)},
+		model: w.contractModel(src, cparams{true, "3000000", val, arg, false})}
 }
 
 // burnOf replays the primitive-level trace to find what self-suicides destroyed (net of reverts).
@@ -874,7 +892,7 @@ func main() {
 	a := hx.ParseArgs()
 	rng := hx.NewRng(a.Seed)
 	res := hx.NewResult("one evaluation = one transaction executed inside a block by the real VMExecutor loop (or one empty block); non-trivial when the transaction passed the fee step and either moved value (balances, stake or escrow changed beyond the fee) or was rejected after BeforeExecute; distinct = distinct (kind, outcome class, program/amount description)")
-	cs := hx.NewCases(a.Out, "From V.C06 Require Import Model Harness.", "list Z * list (N * addr * Z) * list op * obs", "check", 300)
+	cs := hx.NewCases(a.Out, "From V.C06 Require Import Model Harness.", "list Z * list (N * addr * Z) * list hop * obs * option rinfo", "check", 300)
 	nx.Boot(20)
 
 	var w *world
@@ -1019,12 +1037,7 @@ func (w *world) step(r *hx.Rng, res *hx.Result, cs *hx.Cases) {
 	for i := 0; i < nTx; i++ {
 		g := w.generate(r, &installed)
 		gens = append(gens, g)
-		// a contract that self-destructs stays callable (suicided, not yet deleted) until the block's IntermediateRoot;
-		// the prefix copies below finalise after every prefix, so a later tx touching it would be replayed on a different
-		// state: such a call normally ends the block (the few blocks that go on are evaluated as a whole, see below)
-		if g.kind == "call" && strings.Contains(fmt.Sprint(w.progDesc), "selfdestruct") && r.Intn(8) > 0 {
-			break
-		}
+
 	}
 	// the first contract tx of a block is sometimes sent as a JSON-RPC (ETHTX) transaction: same executor core behind a
 	// nonce check; a refused one is dropped without receipt, so only funded senders with the right nonce are used
@@ -1037,6 +1050,18 @@ func (w *world) step(r *hx.Rng, res *hx.Result, cs *hx.Cases) {
 			g.tx.Hash = g.tx.GenHash()
 			g.desc["as"] = "ethtx"
 		}
+	}
+	// rarely the block sits at the Proposal004 fork height: after() then also runs CheckAndMove(0) over the escrow kept
+	// under height 0 (pre-fork refunds without a due height); some is put there first, outside any tx
+	fork004 := r.Intn(40) == 0
+	if fork004 {
+		l := types.RefundInfoList{}
+		l.AddRefundInfo(w.T[0].Bytes(), nx.Wei("2.5"))
+		l.AddRefundInfo(w.S[3].Bytes(), big.NewInt(int64(1+r.Intn(1000))))
+		service.RefundManagerImpl.Add(map[uint64]types.RefundInfoList{0: l}, w.ADB)
+		w.heights[0] = true
+		common.LocalChainConfig.Proposal004Block = hd
+		defer func() { common.LocalChainConfig.Proposal004Block = 0 }()
 	}
 	w.Boundary() // the installed programs are committed: the prefix copies below start from this root
 	var groupId []byte
@@ -1054,11 +1079,19 @@ func (w *world) step(r *hx.Rng, res *hx.Result, cs *hx.Cases) {
 	for i, g := range gens {
 		txs[i] = g.tx
 	}
-	// ---- prefix states: copy k = committed state + txs[0..k) executed by the real loop without the after() phase ----
+	// ---- intermediate states: copy k = committed state + txs[0..k) executed one by one WITHOUT finalisation in between
+	// (nx.Stepper: what tx k really sees inside the block, e.g. a contract that self-destructed earlier in the block and
+	// is still callable); checked below against the real loop: same receipts, same ledger after the last tx ----
 	n := len(gens)
 	pre := make([]*account.AccountDB, n+1)
 	pctx := make([]map[string]interface{}, n+1)
-	var prs []*types.Receipt
+	type srec struct {
+		ok      bool
+		gasUsed uint64
+	}
+	var prs []srec
+	var loopRs []*types.Receipt
+	var loopADB *account.AccountDB
 	infos := make([]*nx.ContractInfo, n)
 	var panicked interface{}
 	func() {
@@ -1069,10 +1102,24 @@ func (w *world) step(r *hx.Rng, res *hx.Result, cs *hx.Cases) {
 				panic(err)
 			}
 			pre[k] = adb
-			if k > 0 {
-				prs, pctx[k] = nx.RunPrefix(adb, hd, w.proposerId, groupId, txs[:k])
+			st := nx.NewStepper(adb, headerOf(w, hd, groupId))
+			var rec []srec
+			for _, tx := range txs[:k] {
+				ok, gu, skipped := st.Step(tx)
+				if skipped {
+					panic("stepper: transaction refused without receipt")
+				}
+				rec = append(rec, srec{ok, gu})
 			}
+			pctx[k] = st.Ctx
+			prs = rec
 		}
+		// the real loop on the same txs without its after() phase: the reference for the stepper
+		var err error
+		if loopADB, err = account.NewAccountDB(w.Root, w.TDB); err != nil {
+			panic(err)
+		}
+		loopRs, _ = nx.RunPrefix(loopADB, hd, w.proposerId, groupId, txs)
 		for k, g := range gens {
 			if g.kind == "call" || g.kind == "create" || g.kind == "custom" {
 				ci := nx.ExtractContract(pre[k], g.tx, headerOf(w, hd, groupId))
@@ -1084,6 +1131,12 @@ func (w *world) step(r *hx.Rng, res *hx.Result, cs *hx.Cases) {
 		res.Count("panic", fmt.Sprint(descs(gens)), true)
 		violate(res, "C06/total:executor-panic", fmt.Sprintf("block execution panicked: %v", panicked), descs(gens))
 		return
+	}
+	for k, info := range infos {
+		if info != nil && info.Ran && !info.Parsed {
+			violate(res, "C06/correspondence:trace-unparsed", fmt.Sprintf("the recorded primitives of tx %d do not group into known events (a new way of moving value?)", k), descs(gens))
+			return
+		}
 	}
 	// ---- universe of this case ----
 	uni := append([]common.Address{}, w.base...)
@@ -1104,16 +1157,26 @@ func (w *world) step(r *hx.Rng, res *hx.Result, cs *hx.Cases) {
 			continue
 		}
 		for _, e := range info.Trace {
-			if e.Kind == "V" || e.Kind == "K" {
+			switch e.Kind {
+			case "V", "K", "A":
 				idx(e.A)
 				idx(e.B)
+			case "St", "Us", "Ua":
+				idx(e.A)
 			}
 		}
 		if info.Created != (common.Address{}) {
 			idx(info.Created)
 		}
 	}
-	escBefore := w.escrowOn(w.ADB)
+	// every read of the pre-block ledger goes through a separate AccountDB on the same root: reading through the
+	// AccountDB the block will run on populates its caches, and accountObject.empty() looks at them (property C04), which
+	// changes the gas of a later SELFDESTRUCT / CALL to that address
+	reader, rerr := account.NewAccountDB(w.Root, w.TDB)
+	if rerr != nil {
+		panic(rerr)
+	}
+	escBefore := w.escrowOn(reader)
 	for _, e := range escBefore {
 		idx(e.A)
 	}
@@ -1132,7 +1195,7 @@ func (w *world) step(r *hx.Rng, res *hx.Result, cs *hx.Cases) {
 	nUni := len(uni)
 
 	// ---- the real thing: the whole block with its after() phase ----
-	before := w.read(w.ADB, uni, nil)
+	before := w.read(reader, uni, nil)
 	var rs []*types.Receipt
 	func() {
 		defer func() { panicked = recover() }()
@@ -1160,39 +1223,30 @@ func (w *world) step(r *hx.Rng, res *hx.Result, cs *hx.Cases) {
 	}
 	nAll := len(uni)
 	w.Boundary()
-	if len(rs) != n || len(prs) != n && n > 0 {
+	if len(rs) != n || len(prs) != n || len(loopRs) != n {
 		violate(res, "C06/correspondence:receipt-count", fmt.Sprintf("block of %d txs produced %d receipts (prefix run %d)", n, len(rs), len(prs)), descs(gens))
 		return
 	}
 
-	// the prefix copies are finalised (IntermediateRoot) after every prefix; the real block is not: a contract that
-	// self-destructed earlier in the block is still callable in the real run. The replay of tx k on its prefix copy is
-	// faithful only if it went the way the real run did (same outcome, same gas).
-	suicidedEarlier := false
+	// the stepper, the replay of each contract tx on its intermediate state and the real loop must agree
 	for k := 0; k < n; k++ {
-		info := infos[k]
-		if info != nil && info.Ran && ((info.EvmErr == "") != (rs[k].Status == 1) || info.GasUsed != rs[k].GasUsed) {
-			if !suicidedEarlier {
-				violate(res, "C06/correspondence:extraction-diverged", fmt.Sprintf("trace extraction (err=%q gas=%d) and real execution (status=%d gas=%d) disagree on tx %d", info.EvmErr, info.GasUsed, rs[k].Status, rs[k].GasUsed, k), descs(gens))
-				return
-			}
-			res.Count("block:inseparable", "block:inseparable", false)
-			// evaluated as a whole, burns unknown: at least nothing may be created
-			d := new(big.Int).Sub(after.wealth(), before.wealth())
-			if !withReward && d.Sign() > 0 {
-				violate(res, "C06/mint:block-with-resurrected-contract", "balances + locked stake + escrow grew by "+d.String()+" over a block without reward", descs(gens))
-			}
+		if prs[k].ok != (rs[k].Status == 1) || prs[k].gasUsed != rs[k].GasUsed || loopRs[k].Status != rs[k].Status || loopRs[k].GasUsed != rs[k].GasUsed {
+			violate(res, "C06/correspondence:stepper-diverged", fmt.Sprintf("tx %d: stepper (ok=%v gas=%d), real loop without after() (status=%d gas=%d) and real block (status=%d gas=%d) disagree", k, prs[k].ok, prs[k].gasUsed, loopRs[k].Status, loopRs[k].GasUsed, rs[k].Status, rs[k].GasUsed), descs(gens))
 			return
 		}
-		if info != nil {
-			for _, e := range info.Trace {
-				if e.Kind == "K" {
-					suicidedEarlier = true
-				}
-			}
+		if info := infos[k]; info != nil && info.Ran && ((info.EvmErr == "") != (rs[k].Status == 1) || info.GasUsed != rs[k].GasUsed) {
+			violate(res, "C06/correspondence:extraction-diverged", fmt.Sprintf("trace extraction (err=%q gas=%d) and real execution (status=%d gas=%d) disagree on tx %d", info.EvmErr, info.GasUsed, rs[k].Status, rs[k].GasUsed, k), descs(gens))
+			return
 		}
-		if prs[k].Status != rs[k].Status || prs[k].GasUsed != rs[k].GasUsed {
-			violate(res, "C06/correspondence:prefix-run-diverged", fmt.Sprintf("the block executed with and without its after() phase gave different receipts for tx %d", k), descs(gens))
+	}
+	{
+		a, b := w.read(pre[n], uni[:nUni], pctx[n]), w.read(loopADB, uni[:nUni], nil)
+		same := a.locked.Cmp(b.locked) == 0 && escTotal(a.esc).Cmp(escTotal(b.esc)) == 0
+		for i := range a.bal {
+			same = same && a.bal[i].Cmp(b.bal[i]) == 0
+		}
+		if !same {
+			violate(res, "C06/correspondence:stepper-ledger-diverged", "the ledger after the last tx differs between the stepper and the real loop", descs(gens))
 			return
 		}
 	}
@@ -1337,6 +1391,9 @@ func (w *world) step(r *hx.Rng, res *hx.Result, cs *hx.Cases) {
 			}
 		}
 	}
+	if fork004 {
+		res.Count("block:fork004-checkandmove0", fmt.Sprintf("fork004|%d", n), true)
+	}
 	if n == 0 {
 		cl := "idle"
 		if jumped {
@@ -1395,7 +1452,7 @@ func (w *world) step(r *hx.Rng, res *hx.Result, cs *hx.Cases) {
 	if withReward && rewardEntries == nil && reward.Sign() != 0 {
 		return
 	}
-	var ops []string
+	var ops, results []string
 	for k, g := range gens {
 		m := &mctx{idx: idx, pre: pre[k], pre0: pre[0], info: infos[k], rc: rs[k], h: hd}
 		if pctx[k] != nil {
@@ -1409,7 +1466,12 @@ func (w *world) step(r *hx.Rng, res *hx.Result, cs *hx.Cases) {
 			res.Note("trace of a contract tx did not parse into model events; case skipped: " + string(descJ))
 			return
 		}
-		ops = append(ops, "OTx ("+t+")")
+		if strings.HasPrefix(t, "HC ") {
+			ops = append(ops, t)
+		} else {
+			ops = append(ops, "HO (OTx ("+t+"))")
+		}
+		results = append(results, m.results...)
 	}
 	if len(uni) != nAll {
 		return // a model-term builder named an address whose balance was not read
@@ -1419,9 +1481,12 @@ func (w *world) step(r *hx.Rng, res *hx.Result, cs *hx.Cases) {
 		for _, e := range rewardEntries {
 			ps = append(ps, fmt.Sprintf("(%d%%N, %s)", idx(e.A), zlit(e.V)))
 		}
-		ops = append(ops, fmt.Sprintf("OReward %d%%N [%s]", rewardH, strings.Join(ps, "; ")))
+		ops = append(ops, fmt.Sprintf("HO (OReward %d%%N [%s])", rewardH, strings.Join(ps, "; ")))
 	}
-	ops = append(ops, fmt.Sprintf("OCheckAndMove %d%%N", hd))
+	ops = append(ops, fmt.Sprintf("HO (OCheckAndMove %d%%N)", hd))
+	if fork004 {
+		ops = append(ops, "HO (OCheckAndMove 0%N)")
+	}
 	var sc []string
 	for _, e := range escBefore {
 		sc = append(sc, fmt.Sprintf("(%d%%N, %d%%N, %s)", e.H, idx(e.A), zlit(e.V)))
@@ -1433,8 +1498,47 @@ func (w *world) step(r *hx.Rng, res *hx.Result, cs *hx.Cases) {
 		}
 		return "[" + strings.Join(ss, "; ") + "]"
 	}
-	term := fmt.Sprintf("(%s, [%s], [%s], Ob %s %s %s)", zs(before.bal), strings.Join(sc, "; "), strings.Join(ops, "; "), zs(after.bal),
-		zlit(new(big.Int).Sub(after.locked, before.locked)), zlit(escTotal(escAfter)))
+	// the inputs of the reward formula, read with the node's own registry functions on the state the after() phase sees
+	// (all txs executed, nothing finalised); the formula itself is Model.reward_weights
+	rinfo := "None"
+	if len(rewardEntries) > 0 {
+		adb := pre[n]
+		castor := common.Address{}
+		if m := service.MinerManagerImpl.GetMinerById(w.proposerId, common.MinerTypeProposer, adb); m != nil {
+			castor = common.BytesToAddress(m.Account)
+		}
+		_, pm := service.MinerManagerImpl.GetProposerTotalStakeWithDetail(hd, adb)
+		var pids []string
+		for id := range pm {
+			pids = append(pids, id)
+		}
+		sort.Strings(pids)
+		var ps, vs []string
+		for _, id := range pids {
+			acct := common.Address{}
+			if m := service.MinerManagerImpl.GetMinerById(common.FromHex(id), common.MinerTypeProposer, adb); m != nil {
+				acct = common.BytesToAddress(m.Account)
+			}
+			ps = append(ps, fmt.Sprintf("(%d%%N, %d)", idx(acct), pm[id]))
+		}
+		if g := nx.Groups[string(groupId)]; g != nil {
+			_, vm := service.MinerManagerImpl.GetValidatorsStake(g.Members, adb)
+			var vas []common.Address
+			for a := range vm {
+				vas = append(vas, a)
+			}
+			sort.Slice(vas, func(i, j int) bool { return vas[i].GetHexString() < vas[j].GetHexString() })
+			for _, a := range vas {
+				vs = append(vs, fmt.Sprintf("(%d%%N, %d)", idx(a), vm[a]))
+			}
+		}
+		rinfo = fmt.Sprintf("(Some (%d, %d, %d%%N, [%s], [%s]))", hd, common.GetBlocksPerEpoch(), idx(castor), strings.Join(ps, "; "), strings.Join(vs, "; "))
+		if len(uni) != nAll {
+			return
+		}
+	}
+	term := fmt.Sprintf("(%s, [%s], [%s], Ob %s %s %s [%s], %s)", zs(before.bal), strings.Join(sc, "; "), strings.Join(ops, "; "), zs(after.bal),
+		zlit(new(big.Int).Sub(after.locked, before.locked)), zlit(escTotal(escAfter)), strings.Join(results, "; "), rinfo)
 	cs.Add("("+term+")%Z", map[string]interface{}{"classes": classes, "height": hd, "block": descs(gens), "ops": ops})
 }
 
